@@ -37,9 +37,14 @@ def nudge_wire(j, rng):
         f = float(Fraction(j))
         if f == 0.0:
             return j
-        k = rng.choice([-4, -3, -2, -1, 1, 2, 3, 4])
-        for _ in range(abs(k)):
-            f = math.nextafter(f, math.inf if k > 0 else -math.inf)
+        # (the real evaluation rounds inside as well: products of coordinates of size 1e3 carry
+        # errors that correspond to input changes of tens of ulps, so the probe goes up to 64)
+        k = rng.choice([-64, -16, -4, -2, -1, 1, 2, 4, 16, 64])
+        if abs(k) <= 4:
+            for _ in range(abs(k)):
+                f = math.nextafter(f, math.inf if k > 0 else -math.inf)
+        else:
+            f = f + k * (math.nextafter(abs(f), math.inf) - abs(f))
         return lbg.wnum(f)
     if isinstance(j, list):
         return [nudge_wire(x, rng) for x in j]
